@@ -15,12 +15,11 @@
    front): every history of pushes, terminations and transport steps on a ring of any capacity
    and offset keeps the stream-level encoder invariant, so that transport bytes followed by
    ring contents are exactly the frames of the completed messages
-   ([C02_queue_push_refines_partial], [C02_ring_writer_stream_partial]).  PARTIAL: the
-   out-of-band branch of mpt_queue_push (open block straddling the storage end, copied to a
-   stack buffer) is excluded by the guard [wh_guard]/[no_oob]; it is modelled and compared
-   with the implementation, not proved.
+   ([C02_queue_push_refines], [C02_ring_writer_stream]), for every branch of mpt_queue_push
+   including the out-of-band copy of an open block that straddles the storage end, and the
+   ring-level model never faults ([C02_ring_writer_total]).
 
-   What is modelled and compared but NOT proved: that out-of-band branch, and the ring mechanics
+   What is modelled and compared but NOT proved (hence "partial" overall): the ring mechanics
    of mpt_queue_recv / mpt_queue_shift (prefix space after MissingBuffer, cropping).  They are
    decided against the specification [sspec_run] — received = sent, in order, nothing lost,
    duplicated or merged, and everything arrives after a drain — by the correspondence run on
@@ -48,23 +47,28 @@ Theorem C02_stream_integrity_flat :
 Proof. exact stream_integrity. Qed.
 
 (* one mpt_queue_push on a ring in any state that meets the invariant: the result meets it again
-   (with the consumed bytes added, or the message closed).  Full statement: the same without
-   the [no_oob] hypothesis. *)
-Theorem C02_queue_push_refines_partial :
+   (with the consumed bytes added, or the message closed), the capacity is unchanged and the
+   offset is kept or reset by re-alignment *)
+Theorem C02_queue_push_refines :
   forall v e sent pre consumed arg,
-    variant_ok v -> rinv v pre consumed sent e -> no_oob e -> qoff (eq_q e) < qmax (eq_q e) ->
-    push_ok v pre consumed sent (norm_arg arg) (equeue_push v e arg).
-Proof. exact equeue_push_refines_partial. Qed.
+    variant_ok v -> rinv v pre consumed sent e -> qoff (eq_q e) < qmax (eq_q e) ->
+    push_ok v pre consumed sent (norm_arg arg) (eq_q e) (equeue_push v e arg).
+Proof. exact equeue_push_refines. Qed.
 
-Theorem C02_ring_writer_invariant_partial :
+Theorem C02_ring_writer_invariant :
   forall v, variant_ok v -> forall ops s s', wh_inv v s -> wh_run v s ops = Some s' -> wh_inv v s'.
 Proof. exact wh_run_inv. Qed.
+
+(* no writer history makes the ring-level model fault (no access outside the storage, no abort) *)
+Theorem C02_ring_writer_total :
+  forall v, variant_ok v -> forall ops s, wh_inv v s -> exists s', wh_run v s ops = Some s'.
+Proof. exact wh_run_total. Qed.
 
 (* writer histories on a ring of any size and offset: between messages, transport bytes + ring
    contents are cut by their delimiters into one frame body per completed message, in order, and
    the decoder loop delivers message i from body i *)
-Theorem C02_ring_writer_stream_partial :
-  forall v buf off ops s, variant_ok v -> off <= length buf ->
+Theorem C02_ring_writer_stream :
+  forall v buf off ops s, variant_ok v -> off < length buf ->
     wh_run v (wh_init buf off) ops = Some s ->
     wh_cur s = [] -> escr (eq_st (wh_e s)) = 0 ->
     exists bodies, split_frames [] (wh_sent s ++ contents (eq_q (wh_e s))) = (bodies, []) /\
@@ -76,7 +80,7 @@ Theorem C02_ring_writer_stream_partial :
 Proof. exact writer_history_delivered. Qed.
 
 (* non-vacuity: a history on a 12-byte ring starting at offset 7 (windows wrap, the ring is
-   re-aligned, the transport takes bytes in between) runs to the end under the guard *)
+   re-aligned, the transport takes bytes in between) *)
 Example C02_ring_writer_example :
   let ops := [WData [1;2;0;3]%N; WTerm; WWire 3; WData [4;5;6;7;8]%N; WData [9]%N; WWire 100;
               WData [10;11;0;0;12]%N; WTerm] in
@@ -103,6 +107,7 @@ Proof. vm_compute. auto. Qed.
 
 Print Assumptions C02_wire_splits_into_frames.
 Print Assumptions C02_stream_integrity_flat.
-Print Assumptions C02_queue_push_refines_partial.
-Print Assumptions C02_ring_writer_invariant_partial.
-Print Assumptions C02_ring_writer_stream_partial.
+Print Assumptions C02_queue_push_refines.
+Print Assumptions C02_ring_writer_invariant.
+Print Assumptions C02_ring_writer_total.
+Print Assumptions C02_ring_writer_stream.
